@@ -973,6 +973,7 @@ def Op.client : Op → Option Nat
   | .creds k _ => some k
   | .connectReuse k _ => some k
   | .releaseHook k => some k
+  | .acceptFault => none
 
 /-- the state right after a new connection has joined the listen queue, before the accept loop looks -/
 def joined (s : St) (k : Nat) (cred : Cred) : St :=
